@@ -403,7 +403,15 @@ class SimpleOperationExecutor:
         Raises:
             OSError: If an OS error occurred.
         """
-        subfiles = os.listdir(dir_)
+        try:
+            subfiles = os.listdir(dir_)
+        except FileNotFoundError:
+            if (created_files is None or
+                    not created_files.has_norm_cased_dir(
+                        os.path.normcase(dir_))):
+                raise
+            # The directory only exists by virtue of created_files
+            subfiles = []
         if created_files is not None:
             norm_cased_subfiles = set(
                 [os.path.normcase(subfile) for subfile in subfiles])
